@@ -312,6 +312,72 @@ def check_schemaless_results_independent(rep):
                              '%s before' % (hx, n2, look(c)[1][:80].replace('\n', ' '), before[1][:80].replace('\n', ' ')), case)
 
 
+def check_explicit_constructed_defaults(rep):
+    """a DEFAULT member of constructed type written out explicitly with the value of its default (BER permits it; DER
+    forbids it but the decoders read it): the decoded result must not hold the guiding type's own default object -
+    changing the member in one result leaves the guiding type, its encoding of an empty record, and every other result
+    as they were"""
+    from pyasn1.type import namedtype, tag as ptag
+    from pyasn1.codec.ber import decoder as bdec, encoder as benc
+    from pyasn1.codec.cer import decoder as cdec
+    from pyasn1.codec.der import decoder as ddec
+
+    def ctx(n, t):
+        return t.subtype(implicitTag=ptag.Tag(ptag.tagClassContext, ptag.tagFormatConstructed, n))
+    ints = univ.SequenceOf(componentType=univ.Integer())
+    d_seqof = ints.clone()
+    d_seqof.extend([1, 2])
+    d_setof = univ.SetOf(componentType=univ.Integer())
+    d_setof.extend([3])
+    inner = univ.Sequence(componentType=namedtype.NamedTypes(namedtype.NamedType('x', univ.Integer()),
+                                                             namedtype.OptionalNamedType('y', univ.Boolean())))
+    d_seq = inner.clone()
+    d_seq['x'] = 3
+    d_set = univ.Set(componentType=namedtype.NamedTypes(namedtype.NamedType('x', univ.Integer())))
+    d_set['x'] = 4
+    shapes = [('seqof', d_seqof, '3006020101020102'), ('setof', d_setof, '3103020103'), ('seq', d_seq, '3003020103'),
+              ('set', d_set, '3103020104')]
+    for name, dflt, member_hex in shapes:
+        for holder_cls, htag in ((univ.Sequence, '30'), (univ.Set, '31')):
+            for defmode in (True, False):
+                schema = holder_cls(componentType=namedtype.NamedTypes(
+                    namedtype.NamedType('id', univ.Boolean()), namedtype.DefaultedNamedType('d', dflt)))
+                body = bytes.fromhex('0101ff' + member_hex)
+                data = bytes.fromhex(htag) + (bytes([len(body)]) + body if defmode else b'\x80' + body + b'\x00\x00')
+                case = {'kind': 'explicit-constructed-default', 'default': name, 'holder': holder_cls.__name__,
+                        'definite': defmode, 'bytes': data.hex()}
+                for dn, dec in (('ber', bdec), ('cer', cdec), ('der', ddec)):
+                    rep.evaluations += 1
+                    rep.count('explicit-constructed-defaults')
+                    before = (type_shape(schema), bytes(benc.encode(schema.componentType[1].asn1Object)).hex())
+                    try:
+                        a, ra = dec.decode(data, asn1Spec=schema)
+                        b, rb = dec.decode(data, asn1Spec=schema)
+                    except error.PyAsn1Error:
+                        continue        # a decoder may refuse the non-canonical form; that is C02's matter
+                    look_b = b.prettyPrint()
+                    if a['d'] is schema.componentType[1].asn1Object or a['d'] is b['d']:
+                        rep.fail('decoded-member-is-the-default-object', '%s decoder: the %s member of the result IS the guiding '
+                                 "type's default object (or the other result's member)" % (dn, name), dict(case, codec=dn))
+                        continue
+                    try:
+                        m = a['d']
+                        if isinstance(m, (univ.SequenceOf, univ.SetOf)):
+                            m.append(99)
+                        else:
+                            m['x'] = 99
+                    except Exception as e:  # noqa
+                        rep.fail('decoded-member-not-writable-' + type(e).__name__, str(e), dict(case, codec=dn))
+                        continue
+                    after = (type_shape(schema), bytes(benc.encode(schema.componentType[1].asn1Object)).hex())
+                    if after != before:
+                        rep.fail('decoded-result-shares-state-with-spec', '%s decoder: changing the %s member of a decoded result '
+                                 "changed the guiding type's DEFAULT (%s -> %s)" % (dn, name, before[1], after[1]), dict(case, codec=dn))
+                    if b.prettyPrint() != look_b:
+                        rep.fail('decoded-results-share-state', '%s decoder: changing the %s member of one result changed another '
+                                 'result' % (dn, name), dict(case, codec=dn))
+
+
 def check_mutable_inputs(rep):
     """value objects built from a caller's mutable buffer (bytearray) do not keep it: after the buffer is refilled or changed,
     every object built from it - by the constructor, clone(), the native decoder (scalars and record members), the BER
@@ -629,6 +695,8 @@ def run(rep, tier, seed):
     cross_call_forms(rep)
     check_schemaless_results_independent(rep)
     check_mutable_inputs(rep)
+    rep.case('explicit constructed defaults', nontrivial=True)
+    check_explicit_constructed_defaults(rep)
     for i in range(60 if tier == 'quick' else 3000):
         history(rep, rng.sample(pool, min(len(pool), 6)), rng)
     for i in range(60 if tier == 'quick' else 3000):
